@@ -53,6 +53,7 @@ func checkC19(c *Ctx) {
 	c.Rule("C19.2", "self-framing alphabet: integer verb on an integer, upper-case hex verb without space/# flag on a byte slice; neither alphabet contains sep or term", 1)
 	c.Rule("C19.3", "fragmentation-proof decoding: only one-byte reads with checked count; an error delivered together with the byte does not lose the byte; one record per call (return at the first terminator)", 3)
 	c.Rule("C19.4", "no reachable panic on malformed lines in ReadAndConvert", 1)
+	c.Rule("C19.6", "no artificial limit: the decoder does not give up on a line because an accumulated length reaches a constant below what a 2000-byte message needs (4000 hex digits)", 1)
 	c.Rule("C19.5", "the decoder's conversions invert the encoder's verbs: the decimal text of every int32 time stamp converts back to it and the upper-case hex text of every message converts back to its bytes, with a nil error, on every path", 2)
 
 	read := p.Func("drivers/midicat", "Read")
@@ -237,6 +238,8 @@ func checkC19(c *Ctx) {
 	ps.Check(c, "C19.4", scope)
 	// ---- C19.5 the decoder's conversions invert the encoder's verbs
 	conversionsInvert(c, "C19.5", scope)
+	// ---- C19.6 no length limit inside the stated message sizes
+	noSmallLimit(c, "C19.6", scope)
 }
 
 // conversionsInvert: the two conversion helpers of the decoder — []byte -> (int32, error) for the text before the
@@ -373,4 +376,150 @@ func variadicArgTypes(call ssa.CallInstruction) (string, string) {
 		}
 	}
 	return res[0], res[1]
+}
+
+// noSmallLimit: an If that compares a length (len of an accumulating slice, or a counter) with a constant and whose
+// taken edge leads only to error returns is a size limit; the property states messages up to 2000 bytes (4000 hex
+// digits on the wire), so a limit below 4000 rejects well-formed lines.
+func noSmallLimit(c *Ctx, rule string, scope []*ssa.Function) {
+	p := c.P
+	const need = 4000
+	bad := ""
+	var badPos token.Pos
+	n := 0
+	for _, fn := range scope {
+		sig := fn.Signature
+		nres := sig.Results().Len()
+		if nres == 0 || !isErrorType(sig.Results().At(nres-1).Type()) {
+			continue
+		}
+		for _, b := range fn.Blocks {
+			if len(b.Instrs) == 0 {
+				continue
+			}
+			iff, ok := b.Instrs[len(b.Instrs)-1].(*ssa.If)
+			if !ok {
+				continue
+			}
+			cmp, ok := iff.Cond.(*ssa.BinOp)
+			if !ok {
+				continue
+			}
+			k, isK := constInt(cmp.Y)
+			x := cmp.X
+			if !isK {
+				if k2, ok2 := constInt(cmp.X); ok2 {
+					k, isK, x = k2, true, cmp.Y
+				}
+			}
+			if !isK || k < 8 {
+				continue
+			}
+			isLen := false
+			if call, ok := x.(*ssa.Call); ok {
+				if bi, ok := call.Call.Value.(*ssa.Builtin); ok && (bi.Name() == "len" || bi.Name() == "cap") {
+					isLen = true
+				}
+			}
+			if _, ok := x.(*ssa.Phi); ok {
+				isLen = true
+			}
+			if !isLen {
+				continue
+			}
+			// which edge means "too long": the one taken when the length is >= / > / == the constant
+			te, fe := ifEdges(iff)
+			var big edge
+			switch cmp.Op {
+			case token.GEQ, token.GTR, token.EQL:
+				big = te
+			case token.LSS, token.LEQ, token.NEQ:
+				big = fe
+			default:
+				continue
+			}
+			// does that edge lead only to returns with a non-nil error?
+			reach := blockReach(big.to, nil, nil)
+			onlyErr, nret := true, 0
+			for _, r := range allReturns(fn) {
+				if !reach[r.Block()] {
+					continue
+				}
+				nret++
+				if isNilConst(retVal(r, nres-1)) {
+					onlyErr = false
+				}
+			}
+			if nret == 0 || !onlyErr || reach[iff.Block()] {
+				continue // not a bail-out (e.g. a loop bound)
+			}
+			n++
+			// what is measured: the time-stamp text (it goes to the []byte -> int32 converter; the longest stamp,
+			// "-2147483648", has 11 characters) or the message text
+			limit := int64(need)
+			if isStampBuffer(x, fn) {
+				limit = 11
+			}
+			if k < limit {
+				bad = fmt.Sprintf("%s gives up with an error when a length reaches %d: a well-formed line needs up to %d there (time stamps have up to 11 characters, a message of up to 2000 bytes carries 4000 hex digits)", FuncName(fn), k, limit)
+				badPos = iff.Pos()
+			}
+		}
+	}
+	c.Check(bad == "", rule, "no size limit below the stated message sizes", p.Pos(badPos), fmt.Sprintf("%d length-limit bail-out(s) in the decoder, none below %d", n, need), bad)
+}
+
+// isStampBuffer: the measured value (len(v) or a counter) belongs to the slice that is handed to a callee whose result is
+// (int32, error) — the time-stamp converter.
+func isStampBuffer(x ssa.Value, fn *ssa.Function) bool {
+	var root ssa.Value = x
+	if call, ok := x.(*ssa.Call); ok && len(call.Call.Args) == 1 {
+		root = call.Call.Args[0]
+	}
+	fam := map[ssa.Value]bool{}
+	var grow func(v ssa.Value, d int)
+	grow = func(v ssa.Value, d int) {
+		if v == nil || fam[v] || d > 12 {
+			return
+		}
+		fam[v] = true
+		switch y := v.(type) {
+		case *ssa.Phi:
+			for _, e := range y.Edges {
+				grow(e, d+1)
+			}
+		case *ssa.Call:
+			if bi, ok := y.Call.Value.(*ssa.Builtin); ok && bi.Name() == "append" && len(y.Call.Args) > 0 {
+				grow(y.Call.Args[0], d+1)
+			}
+		}
+		if refs := v.Referrers(); refs != nil {
+			for _, u := range *refs {
+				switch z := u.(type) {
+				case *ssa.Phi:
+					grow(z, d+1)
+				case *ssa.Call:
+					if bi, ok := z.Call.Value.(*ssa.Builtin); ok && bi.Name() == "append" && len(z.Call.Args) > 0 && z.Call.Args[0] == v {
+						grow(z, d+1)
+					}
+				}
+			}
+		}
+	}
+	grow(root, 0)
+	for _, call := range calls(fn) {
+		cal := call.Common().StaticCallee()
+		if cal == nil || cal.Signature.Results().Len() != 2 {
+			continue
+		}
+		if b, ok := cal.Signature.Results().At(0).Type().Underlying().(*types.Basic); !ok || b.Kind() != types.Int32 {
+			continue
+		}
+		for _, a := range call.Common().Args {
+			if fam[a] {
+				return true
+			}
+		}
+	}
+	return false
 }
